@@ -14,7 +14,8 @@ use allsorts::binary::read::ReadScope;
 use allsorts::error::ParseError;
 use allsorts::font::{find_good_cmap_subtable, Encoding};
 use allsorts::macroman::{char_to_macroman, macroman_to_char};
-use allsorts::tables::cmap::{Cmap, CmapSubtable, EncodingId, PlatformId};
+use allsorts::binary::U16Be;
+use allsorts::tables::cmap::{Cmap, CmapSubtable, EncodingId, PlatformId, SubHeader};
 
 // ---------------------------------------------------------------------------
 // format 4
@@ -380,6 +381,216 @@ fn c06_format12_mappings_consistent() {
         assert!(sub.map_glyph(seen[k].0) == Ok(Some(seen[k].1)));
         kani::cover!(n == 4, "four mappings");
     }
+}
+
+// ---------------------------------------------------------------------------
+// format 2 (high-byte mapping through table)
+// ---------------------------------------------------------------------------
+
+/// Layout of the format 2 subtable used below: 6-byte header, 256 subHeaderKeys, three 8-byte
+/// subheaders, four glyphIndexArray entries; everything but the header symbolic.
+const F2_KEYS: usize = 6;
+const F2_SUBHEADERS: usize = F2_KEYS + 512;
+const F2_GLYPHS: usize = F2_SUBHEADERS + 3 * 8;
+const F2_TOTAL: usize = F2_GLYPHS + 4 * 2;
+
+/// OpenType cmap format 2, for a code that is valid in the encoding: a single byte `c` whose key
+/// is 0 uses subheader 0 with `c` as the low byte; a two-byte code whose high byte has a non-zero
+/// key k uses subheader k/8. `Err(())`: the subheader's glyph index sub-array does not fit in the
+/// table. `Ok(0)`: low byte outside [firstCode, firstCode + entryCount) or a 0 array entry.
+fn f2_reference(buf: &[u8], k: usize, low: u8) -> Result<u16, ()> {
+    let sh = F2_SUBHEADERS + 8 * k;
+    let first = be16(buf, sh) as u32;
+    let count = be16(buf, sh + 2) as u32;
+    let delta = be16(buf, sh + 4);
+    let ro = be16(buf, sh + 6) as usize;
+    let low = low as u32;
+    if low < first || low >= first + count {
+        return Ok(0);
+    }
+    // address of the entry for firstCode = &idRangeOffset + idRangeOffset
+    let base = sh + 6 + ro;
+    if base + 2 * count as usize > buf.len() {
+        return Err(());
+    }
+    let g = be16(buf, base + 2 * (low - first) as usize);
+    Ok(if g == 0 { 0 } else { g.wrapping_add(delta) })
+}
+
+/// Format 2: single-byte codes go through subheader 0, two-byte codes through the subheader
+/// their high byte selects; idDelta is added modulo 65536 to non-zero entries only. The subtable
+/// value is assembled from the real readers over the buffer (the parse step, whose 256-entry
+/// scan for the largest key needs a larger unwinding bound, is `c06_format2_parse`).
+// @bound format 2 subtable of 550 bytes, 3 subheaders and 4 glyphIndexArray entries: all 256 subHeaderKeys, the subheaders (firstCode, entryCount, idDelta, idRangeOffset) and the array symbolic; ch any u32 that is a valid code of that encoding (single byte whose key is 0, or two bytes whose lead byte has a key in {8, 16}); keys selecting a missing subheader must give an error; codes above 0xFFFF, lead bytes on their own and two-byte codes with a non-lead high byte are only checked for absence of panics
+#[kani::proof]
+#[kani::unwind(8)]
+fn c06_format2() {
+    let mut buf: [u8; F2_TOTAL] = kani::any();
+    put16(&mut buf, 0, 2);
+    put16(&mut buf, 2, F2_TOTAL as u16);
+    let ch: u32 = kani::any();
+    let scope = ReadScope::new(&buf);
+    let mut ctxt = scope.offset(F2_KEYS).ctxt();
+    let sub_header_keys = ctxt.read_array::<U16Be>(256).unwrap();
+    let sub_headers_scope = ctxt.scope();
+    let sub_headers = ctxt.read_array::<SubHeader>(3).unwrap();
+    let sub = CmapSubtable::Format2 { language: 0, sub_header_keys, sub_headers, sub_headers_scope };
+    let got = sub.map_glyph(ch);
+    if ch > 0xFFFF {
+        return;
+    }
+    let (high, low) = ((ch >> 8) as usize, ch as u8);
+    let key = if high == 0 {
+        if be16(&buf, F2_KEYS + 2 * low as usize) != 0 {
+            return; // a lead byte on its own is not a code
+        }
+        0
+    } else {
+        let key = be16(&buf, F2_KEYS + 2 * high);
+        if key == 0 {
+            return; // second byte after a single-byte code: not a code of this encoding
+        }
+        key
+    };
+    kani::assume(key % 8 == 0);
+    let k = (key / 8) as usize;
+    if k >= 3 {
+        assert!(got.is_err(), "missing subheader");
+        return;
+    }
+    match f2_reference(&buf, k, low) {
+        Ok(g) => {
+            assert!(got == Ok(Some(g)), "format 2 lookup");
+            kani::cover!(k == 2 && g != 0, "two-byte code mapped through subheader 2");
+            kani::cover!(k == 0 && g != 0, "single-byte code mapped");
+        }
+        Err(()) => {
+            assert!(got.is_err(), "sub-array outside the table");
+            kani::cover!(true, "sub-array outside the table");
+        }
+    }
+}
+
+/// Format 2 enumeration lists exactly the pairs single lookups return: every single-byte code
+/// inside subheader 0's window, and for a lead byte every low byte of its subheader's window,
+/// each with the glyph the format assigns (compared with the specification's arithmetic, which
+/// `c06_format2` shows `map_glyph` to follow).
+// @bound format 2 subtable of 550 bytes: keys concrete (0x81 is the only lead byte, subheader 1), subheader 0 symbolic with firstCode + entryCount <= 256, subheader 1 with entryCount 2 and symbolic firstCode <= 254, idDelta and idRangeOffset of both and the 4 glyphIndexArray entries symbolic
+#[kani::proof]
+#[kani::unwind(258)]
+fn c06_format2_mappings_consistent() {
+    let mut buf = [0u8; F2_TOTAL];
+    put16(&mut buf, 0, 2);
+    put16(&mut buf, 2, F2_TOTAL as u16);
+    put16(&mut buf, F2_KEYS + 2 * 0x81, 8);
+    let tail: [u8; F2_TOTAL - F2_SUBHEADERS] = kani::any();
+    let mut i = 0;
+    while i < tail.len() {
+        buf[F2_SUBHEADERS + i] = tail[i];
+        i += 1;
+    }
+    put16(&mut buf, F2_SUBHEADERS + 8 + 2, 2); // entryCount of subheader 1
+    let (first0, count0) = (be16(&buf, F2_SUBHEADERS) as u32, be16(&buf, F2_SUBHEADERS + 2) as u32);
+    let first1 = be16(&buf, F2_SUBHEADERS + 8) as u32;
+    kani::assume(first0 + count0 <= 256 && first1 <= 254);
+    let scope = ReadScope::new(&buf);
+    let mut ctxt = scope.offset(F2_KEYS).ctxt();
+    let sub_header_keys = ctxt.read_array::<U16Be>(256).unwrap();
+    let sub_headers_scope = ctxt.scope();
+    let sub_headers = ctxt.read_array::<SubHeader>(2).unwrap();
+    let sub = CmapSubtable::Format2 { language: 0, sub_header_keys, sub_headers, sub_headers_scope };
+    let mut n = 0u32;
+    let mut ok = true;
+    let r = sub.mappings_fn(|code, glyph| {
+        let (k, low) = if code < 0x100 { (0, code as u8) } else { (1, code as u8) };
+        if code >= 0x100 && code >> 8 != 0x81 {
+            ok = false;
+        }
+        if f2_reference(&buf, k, low) != Ok(glyph) {
+            ok = false;
+        }
+        n += 1;
+    });
+    if r.is_ok() {
+        assert!(ok, "an enumerated pair differs from the single lookup");
+        let lead_inside = if first0 <= 0x81 && 0x81 < first0 + count0 { 1 } else { 0 };
+        assert!(n == count0 - lead_inside + 2, "number of pairs enumerated");
+        kani::cover!(first0 > 0 && count0 > 1, "single-byte window not starting at 0");
+        kani::cover!(count0 == 0, "no single-byte codes");
+    } else {
+        // only a sub-array outside the table makes the enumeration fail
+        let fits = |k: usize, count: u32| {
+            let ro = be16(&buf, F2_SUBHEADERS + 8 * k + 6) as usize;
+            count == 0 || F2_SUBHEADERS + 8 * k + 6 + ro + 2 * count as usize <= F2_TOTAL
+        };
+        assert!(!fits(0, count0) || !fits(1, 2), "enumeration failed on a well-formed table");
+        kani::cover!(true, "sub-array outside the table");
+    }
+}
+
+fn f2_parse_check(buf: &[u8; F2_TOTAL], max: u16) {
+    match ReadScope::new(buf).read::<CmapSubtable<'_>>() {
+        Ok(CmapSubtable::Format2 { sub_header_keys, sub_headers, sub_headers_scope, .. }) => {
+            assert!(sub_header_keys.len() == 256);
+            assert!(sub_headers.len() == (max / 8) as usize + 1);
+            assert!(sub_headers_scope.data().len() == F2_TOTAL - F2_SUBHEADERS);
+            assert!(sub_header_keys.get_item(0x81) == Some(buf[F2_KEYS + 2 * 0x81 + 1] as u16));
+            kani::cover!(max == 16, "three subheaders");
+            kani::cover!(max == 0, "one subheader");
+        }
+        _ => assert!(false, "format 2 subtable must parse"),
+    }
+}
+
+/// Format 2 parse: 256 keys, then as many subheaders as the largest key / 8 + 1, the
+/// subheader scope starting right after the keys.
+// @bound format 2 subtable of 550 bytes; the keys of bytes 0x00, 0x81 and 0xFF symbolic in {0, 8, 16}, all other keys 0
+#[kani::proof]
+#[kani::unwind(258)]
+fn c06_format2_parse() {
+    let mut buf = [0u8; F2_TOTAL];
+    put16(&mut buf, 0, 2);
+    put16(&mut buf, 2, F2_TOTAL as u16);
+    let tail: [u8; F2_TOTAL - F2_SUBHEADERS] = kani::any();
+    let mut i = 0;
+    while i < tail.len() {
+        buf[F2_SUBHEADERS + i] = tail[i];
+        i += 1;
+    }
+    let mut max = 0u16;
+    for pos in [0x00usize, 0x81, 0xFF] {
+        let lo: u8 = kani::any();
+        kani::assume(lo == 0 || lo == 8 || lo == 16);
+        buf[F2_KEYS + 2 * pos + 1] = lo;
+        if lo as u16 > max {
+            max = lo as u16;
+        }
+    }
+    f2_parse_check(&buf, max);
+}
+
+/// As `c06_format2_parse` with every key symbolic.
+// @tier thorough
+// @bound format 2 subtable of 550 bytes with all 256 subHeaderKeys symbolic in {0, 8, 16}
+#[kani::proof]
+#[kani::unwind(258)]
+fn c06_format2_parse_all_keys() {
+    let mut buf: [u8; F2_TOTAL] = kani::any();
+    put16(&mut buf, 0, 2);
+    put16(&mut buf, 2, F2_TOTAL as u16);
+    let mut max = 0u16;
+    let mut i = 0;
+    while i < 256 {
+        buf[F2_KEYS + 2 * i] = 0;
+        let lo: u8 = kani::any();
+        kani::assume(lo == 0 || lo == 8 || lo == 16);
+        buf[F2_KEYS + 2 * i + 1] = lo;
+        if lo as u16 > max {
+            max = lo as u16;
+        }
+        i += 1;
+    }
+    f2_parse_check(&buf, max);
 }
 
 // ---------------------------------------------------------------------------
